@@ -127,7 +127,7 @@ func writeFaultsOn(base *sp.Inst, detail func(what string) map[string]interface{
 	}
 	out := ref.Bytes()
 	ctx.Add("values", 1)
-	for _, mode := range []string{"short", "call"} {
+	for _, mode := range []string{"short", "call", "full"} {
 		for k := 0; k <= len(out)+1; k++ {
 			in := base.Clone() // smf.SMF is a value type; WriteTo closes open tracks in place
 			fw := &faultio.FailWriter{At: k, Mode: mode}
@@ -176,7 +176,7 @@ func writeFaultsOn(base *sp.Inst, detail func(what string) map[string]interface{
 		}
 	}
 	// transient failures: exactly one Write call is rejected (or cut short)
-	for _, mode := range []string{"once", "once-short"} {
+	for _, mode := range []string{"once", "once-short", "once-full"} {
 		for j := 1; j <= 8; j++ {
 			in := base.Clone()
 			fw := &faultio.FailWriter{At: j, Mode: mode}
@@ -313,6 +313,16 @@ func genFiles() [][]byte {
 		append(append(refsmf.Header(1, 2, 96), trk(ev)...), trk(padded)...),
 		append(append(refsmf.Header(0, 1, 96), trk(ev)...), refsmf.Chunk("XFIH", []byte{1, 2, 3, 4, 5})...),
 		append(append(refsmf.Header(0, 1, 96), trk(ev)...), 0xDE, 0xAD, 0xBE, 0xEF, 0x00),
+	)
+	// an end-of-track that carries data (FF 2F 03 ..), as last event of the last
+	// and of an earlier track; a final meta event with a long payload
+	eotData := append(append([]byte{}, ev[:len(ev)-1]...), 0x03, 0x01, 0x02, 0x03)
+	longLast := append(append([]byte{0x00, 0xFF, 0x01, 0x20}, make([]byte, 0x20)...), 0x00, 0xFF, 0x2F, 0x00)
+	out = append(out,
+		append(refsmf.Header(0, 1, 96), trk(eotData)...),
+		append(append(refsmf.Header(1, 2, 96), trk(eotData)...), trk(ev)...),
+		append(append(refsmf.Header(1, 2, 96), trk(ev)...), trk(eotData)...),
+		append(refsmf.Header(0, 1, 96), trk(longLast)...),
 	)
 	return out
 }
